@@ -34,6 +34,39 @@ def wl_mutators(evs):
     return [e for e in evs if e.name.startswith('WL.') and e.name not in ('WL.len', 'WL.is_empty', 'WL.iter', 'WL.capacity', 'WL.front', 'WL.back', 'WL.get', 'WL.contains')]
 
 
+def explicit_try_match(p, evs):
+    """one path of `match m.try_lock() {..}` (std-mutex): exactly one try_lock of the argument; on Ok the guard is returned in `Some`,
+    on Err - blocked or poisoned alike - `None`, the only other thing done being the drop of the error (which releases a poisoned
+    guard exactly as `.ok()` does).  Returns 'Ok' / 'Err' / None (not of this form)."""
+    calls = [e for e in p.events if e.kind == 'call']
+    tl = [e for e in calls if e.name == 'std::sync::Mutex::try_lock']
+    if len(tl) != 1:
+        return None
+    a = tl[0].args[0] if tl[0].args else None
+    if not (a == ('param', 1) or (a is not None and a[0] == 'call' and a[2] == 'std::ops::Deref::deref' and a[3][0] == ('param', 1))):
+        return None
+    res = tl[0].val
+    for e in calls:
+        if e is tl[0] or e.name == 'std::ops::Deref::deref':
+            continue
+        if e.name in ('std::mem::drop', 'std::sync::PoisonError::into_inner') and e.args and contains(e.args[0], res):
+            continue
+        return None
+    if any(e.name in ('LOCK', 'WR') or e.name.startswith(('WL.', 'Q.')) for e in evs):
+        return None
+    out = [e.data['outcome'] for e in evs if e.name == 'BR' and e.data['label'] == 'discr:std::sync::Mutex::try_lock' and contains(e.data['val'], res)]
+    if not out or len(set(out)) != 1:
+        return None
+    r = p.ret
+    if out[0] == 'Ok':
+        ok = r is not None and r[0] == 'agg' and r[2] == 'Some' and r[3] and r[3][0] == ('field', ('downcast', res, 'Ok'), '0')
+        return 'Ok' if ok else None
+    if out[0] == 'Err':
+        ok = r is not None and r[0] == 'agg' and r[2] == 'None'
+        return 'Err' if ok else None
+    return None
+
+
 @rule('H1', ['C03', 'C14', 'C17'], 'acquire_internal / try_acquire_internal are exactly lock() / try_lock() on the argument')
 def h1(ctx):
     for key, want, forbid in (('internal::acquire_internal', 'lock', ()), ('internal::try_acquire_internal', 'try_lock', ('lock',))):
@@ -44,6 +77,13 @@ def h1(ctx):
         if b.has_cycle():
             ctx.violate(key, None, '%s contains a loop' % key, sig='cycle')
         paths = list(ret_paths(ctx, b))
+        explicit = ctx.std_mutex() and want == 'try_lock' and len(paths) > 1 and all(explicit_try_match(p, evs) for p, evs in paths) \
+            and {explicit_try_match(p, evs) for p, evs in paths} == {'Ok', 'Err'}
+        if explicit:
+            # `match m.try_lock() { Ok(g) => Some(g), Err(WouldBlock) => None, Err(Poisoned(p)) => { drop(p); None } }`: `.ok()` written out
+            for p, evs in paths:
+                ctx.oblige(1, sample='%s returns %s' % (key, fmt(p.ret)))
+            continue
         if len(paths) != 1:
             ctx.violate(key, None, '%s has %d paths (must be straight-line)' % (key, len(paths)), sig='paths')
         for p, evs in paths:
